@@ -107,6 +107,34 @@ Theorem C12_set_root : forall d n, is_tag n = true ->
   set_root false d (loose n) = Some {| prologue := prologue d; root := n; epilogue := epilogue d |}.
 Proof. exact set_root_keeps. Qed.
 Print Assumptions C12_set_root.
+(* OPEN finding C12-new-root-with-own-siblings: a new root that has root-level comments / PIs of its own (the root
+   of another document; a former root, which keeps the siblings that were copied from it) passes the setter's
+   detachedness check, and its own siblings end up in the document: read strictly ("the same prologue and epilogue
+   afterwards") the property fails there (refuted, witness: swap the root for a new node and back - the prologue is
+   doubled); what holds for EVERY new root is that the old prologue and epilogue are kept in order next to the root
+   (C12_set_root_in_order), and the strict statement holds under the guard "no root-level siblings of its own"
+   (C12_set_root_partial; C12_set_root above is its instance for a loose node). *)
+Theorem C12_set_root_in_order : forall d tgt d',
+  set_root false d tgt = Some d' ->
+  prologue d' = prologue tgt ++ prologue d /\ epilogue d' = epilogue d ++ epilogue tgt /\ root d' = root tgt.
+Proof. exact set_root_in_order. Qed.
+Print Assumptions C12_set_root_in_order.
+Theorem C12_set_root_partial : forall d tgt,
+  is_tag (root tgt) = true -> prologue tgt = [] -> epilogue tgt = [] ->
+  set_root false d tgt = Some {| prologue := prologue d; root := root tgt; epilogue := epilogue d |}.
+Proof. exact set_root_partial. Qed.
+Print Assumptions C12_set_root_partial.
+(* the witness: d = <!--a--><n/> whose former root <r/> still has the comment it was copied from *)
+Theorem C12_set_root_strict_refuted : exists d tgt,
+  is_tag (root tgt) = true /\
+  set_root false d tgt <> Some {| prologue := prologue d; root := root tgt; epilogue := epilogue d |}.
+Proof.
+  exists {| prologue := [Comment [97]]; root := Tag [] [110] [] []; epilogue := [] |},
+         {| prologue := [Comment [97]]; root := Tag [] [114] [] []; epilogue := [] |}.
+  split; [reflexivity|]. vm_compute. discriminate.
+Qed.
+Print Assumptions C12_set_root_strict_refuted.
+
 (* assigning the current root to itself changes nothing (fixed finding C12-root-self-assignment, e27f40b:
    the siblings used to be copied once more, see DocFacts.copy_root_siblings_self); the early return is
    read from the source on every run (Gen/GenDoc.v) *)
@@ -204,7 +232,7 @@ Print Assumptions C12_roundtrip_str_plain.
    instantiated by computation below with the reader built from C02's lexer and parser
    (C12_example_render_seen) and tied on every run by C03's correspondence check, which compares `seen` with
    what the real parser makes of the real output.  fmt_root_ok = the premises of C03 (a tag node, reduced, an
-   indentation of space/tab/newline; for width > 0: no newline in the indentation, width >= 1). *)
+   indentation of space/tab/newline; for width > 0: width >= 1). *)
 Theorem C12_root_formatted : forall fo t,
   DocPrettyFacts.fmt_root_ok fo t -> Reduce.reduce_model (DocPretty.norm_fmt fo t) = t.
 Proof. exact DocPrettyFacts.fmt_transparent. Qed.
@@ -261,13 +289,13 @@ Theorem C12_roundtrip_wrapped :
     forall enc ls nl ind align width d b,
       supported enc = true -> label_ok enc = true -> linesep_ok ls -> doc_ok d = true ->
       is_tag (root d) = true -> WsVariant.reduced (root d) ->
-      SimplePP.ws_indent ind = true -> WrapTextOnly.no_lf ind = true -> (1 <= width)%Z ->
+      SimplePP.ws_indent ind = true -> (1 <= width)%Z ->
       root_shape (Wrap.wrap_str ind align width (root d) []) = true ->
       no_cr (Wrap.wrap_str ind align width (root d) []) = true ->
       doc_write DocPretty.fmt_kind DocPretty.ser_root_fmt encode ls enc nl (DocPretty.FWrap ind align width) d = Some b ->
       DocPretty.reduce_read (doc_read ref_read decode b) = Ok (Some (upper enc), d).
 Proof.
-  intros bytes supported encode decode ref_read Hc Hb enc ls nl ind align width d b Hs He Hl Hd Ht Hr Hi Hn Hwd Hsh Hcr Hw.
+  intros bytes supported encode decode ref_read Hc Hb enc ls nl ind align width d b Hs He Hl Hd Ht Hr Hi Hwd Hsh Hcr Hw.
   assert (E : DocPretty.ser_root_fmt (DocPretty.FWrap ind align width) (root d) = Wrap.wrap_str ind align width (root d) []).
   { unfold DocPretty.ser_root_fmt, DocPretty.fmt_chunk, Wrap.wrap_str. destruct (Wrap.wrap_real ind align width (root d) []); reflexivity. }
   apply (DocPrettyFacts.roundtrip_bytes_fmt bytes supported encode decode ref_read Hc Hb enc ls nl
